@@ -708,6 +708,7 @@ typedef struct {
     JanetTable *reg;
     JanetFuncEnv **lookup_envs;
     JanetFuncDef **lookup_defs;
+    uint8_t *lookup_defs_done;
     const uint8_t *start;
     const uint8_t *end;
 } UnmarshalState;
@@ -896,6 +897,9 @@ static const uint8_t *unmarshal_one_def(
         int32_t index = readint(st, &data);
         if (index < 0 || index >= janet_v_count(st->lookup_defs))
             janet_panicf("invalid funcdef reference %d", index);
+        /* A funcdef that contains itself can only come from a crafted image */
+        if (!st->lookup_defs_done[index])
+            janet_panicf("funcdef reference %d to a funcdef that is still being read", index);
         *out = st->lookup_defs[index];
     } else {
         /* Initialize with values that will not break garbage collection
@@ -916,6 +920,8 @@ static const uint8_t *unmarshal_one_def(
         def->symbolmap = NULL;
         def->symbolmap_length = 0;
         janet_v_push(st->lookup_defs, def);
+        janet_v_push(st->lookup_defs_done, 0);
+        int32_t defindex = janet_v_count(st->lookup_defs) - 1;
 
         /* Set default lengths to zero */
         int32_t bytecode_length = 0;
@@ -1063,6 +1069,7 @@ static const uint8_t *unmarshal_one_def(
             janet_panic("funcdef has invalid bytecode");
 
         /* Set def */
+        st->lookup_defs_done[defindex] = 1;
         *out = def;
     }
     return data;
@@ -1688,6 +1695,7 @@ Janet janet_unmarshal(
     st.start = bytes;
     st.end = bytes + len;
     st.lookup_defs = NULL;
+    st.lookup_defs_done = NULL;
     st.lookup_envs = NULL;
     st.lookup = NULL;
     st.reg = reg;
@@ -1695,6 +1703,7 @@ Janet janet_unmarshal(
     const uint8_t *nextbytes = unmarshal_one(&st, bytes, &out, flags);
     if (next) *next = nextbytes;
     janet_v_free(st.lookup_defs);
+    janet_v_free(st.lookup_defs_done);
     janet_v_free(st.lookup_envs);
     janet_v_free(st.lookup);
     return out;
